@@ -480,3 +480,16 @@ Proof.
     destruct (allocate_awf _ _ _ (W2 _ _ Ha2) Ha) as (_ & _ & K3 & _).
     destruct (K3 (rid r) (Mp _ Hp1)) as [c Hc]. exists c. now apply Hsub.
 Qed.
+
+(* the bound on the number of rounds in the model of Allocate() is never hit *)
+Lemma allocate_never_out_of_fuel a : awf a -> a_allocate (S (size (a_poss a))) a <> Err EOutOfFuel.
+Proof.
+  intros [W1 W2 W3 W4 W5]. apply (allocate_fuel_enough (a_edges a)); [|lia].
+  rewrite W1. constructor.
+  - intros v c Hl. rewrite lookup_empty in Hl. discriminate.
+  - intros v Hs. split; [now apply W3|apply lookup_empty].
+  - intros v c Hc. destruct (W4 v c Hc) as [Hin Hk]. split; [now apply W2|exact Hk].
+  - auto.
+  - intros e He. unfold ends_in. rewrite !lk_empty. now apply W5.
+  - intros x y Hin. now left.
+Qed.
